@@ -32,7 +32,22 @@ def tm_data(c):
 
 
 def TM(c):
-    return ttb.tenmat(tm_data(c), np.array(c["rdims"], dtype=int), np.array(c["cdims"], dtype=int), tuple(c["shape"]))
+    """tenmat of the case: from the constructor, or (round 2: results of one operation fed into the next) obtained by
+    matricising a tensor that is itself in a derived state, when that gives the same object state"""
+    D = tm_data(c)
+    rd, cd = np.array(c["rdims"], dtype=int), np.array(c["cdims"], dtype=int)
+    how = (c.get("_st") or {}).get("how", "ctor")
+    if how != "ctor" or c.get("_dt"):
+        try:
+            X = R.CS.build_tensor(c).to_tenmat(rd.copy(), cd.copy())
+            ok = (isinstance(X, ttb.tenmat) and np.array_equal(np.asarray(X.data, dtype=float), D)
+                  and list(X.rindices) == list(rd) and list(X.cindices) == list(cd) and tuple(X.tshape) == tuple(c["shape"]))
+        except Exception:  # noqa: BLE001
+            ok = False
+        R.CS.ST.note("tenmat-from-tensor-" + how, ok)
+        if ok:
+            return X
+    return ttb.tenmat(D, rd, cd, tuple(c["shape"]))
 
 
 def tm_labels(ctx, c):
@@ -282,6 +297,18 @@ def stm_subs(c):
 
 
 def STM(c):
+    how = (c.get("_st") or {}).get("how", "ctor")
+    if c["subs"] and c["rdims"] and c["cdims"] and (how != "ctor" or c.get("_dt")):
+        rd, cd = np.array(c["rdims"], dtype=int), np.array(c["cdims"], dtype=int)
+        try:
+            X = R.CS.build_sptensor(c).to_sptenmat(rd.copy(), cd.copy())
+            ok = (isinstance(X, ttb.sptenmat) and list(X.rdims) == list(rd) and list(X.cdims) == list(cd)
+                  and tuple(X.tshape) == tuple(c["shape"]) and np.array_equal(ref.den(X), gen.dense_of_sparse_case(c)))
+        except Exception:  # noqa: BLE001
+            ok = False
+        R.CS.ST.note("sptenmat-from-sptensor-" + how, ok)
+        if ok:
+            return X
     if not c["subs"]:
         return ttb.sptenmat(rdims=np.array(c["rdims"], dtype=int), cdims=np.array(c["cdims"], dtype=int), tshape=tuple(c["shape"]))
     return ttb.sptenmat(stm_subs(c), np.array(c["vals"], dtype=float).reshape(-1, 1), np.array(c["rdims"], dtype=int),
